@@ -43,7 +43,9 @@ class Prop(BaseProp):
         for _ in range(rng.randint(5, 40 if rng.random() < 0.3 else 15)):
             kind = rng.choice(['parse', 'parse', 'keys', 'symbols', 'unknown', 'validate', 'equiv', 'contains', 'dedup', 'simplify', 'render',
                                'combine', 'construct', 'reparse'])
-            ops.append({'op': kind, 'inst': rng.randrange(ninst), 'text': rng.choice(TEXTS), 'text2': rng.choice(TEXTS),
+            # the same texts in other letter cases too: known names resolve alike, unknown names keep the spelling of the text
+            recase = lambda t: rng.choice([t, t, t.upper(), t.lower(), t.title(), t.swapcase()])  # noqa
+            ops.append({'op': kind, 'inst': rng.randrange(ninst), 'text': recase(rng.choice(TEXTS)), 'text2': recase(rng.choice(TEXTS)),
                         'simple': rng.random() < 0.2, 'strict': rng.random() < 0.3, 'validate': rng.random() < 0.2,
                         'table': rng.randrange(len(TABLES)), 'unique': rng.random() < 0.5, 'shared': rng.random() < 0.4})
         return {'insts': insts, 'ops': ops}
